@@ -176,7 +176,9 @@ fn insert_cval(world: &mut World, e: Entity, v: &CVal, joints: &[Entity]) {
             em.insert(CompU { secret: n as u32 });
         }
         Ty::Transform => {
-            em.insert(Transform::from_xyz(n as f32, (n * 2) as f32, -(n as f32)));
+            // now and then a value that is not finite (an object parked at infinity); infinities compare equal to themselves
+            let x = match n.rem_euclid(7) { 3 => f32::INFINITY, 5 => f32::NEG_INFINITY, _ => n as f32 };
+            em.insert(Transform::from_xyz(x, (n * 2) as f32, -(n as f32)));
         }
         Ty::Name => {
             em.insert(Name::new(format!("name-{}", n)));
